@@ -25,7 +25,9 @@ def Op.map {σ τ : Type} (f : σ → τ) : Op α σ → Op α τ
   | .getAttr n => .getAttr n | .get n d => .get n d | .setInt i v => .setInt i v
   | .setSlice sl vs => .setSlice sl vs | .setName n v => .setName n v | .delInt i => .delInt i
   | .delSlice sl => .delSlice sl | .delName n => .delName n | .pop0 => .pop0
-  | .popInt i d => .popInt i d | .popName n d => .popName n d | .insert i v => .insert i v
+  | .popInt i d => .popInt i d | .popName n d => .popName n d | .popBadKw => .popBadKw
+  | .setSliceScalar sl => .setSliceScalar sl
+  | .insert i v => .insert i v
   | .append v => .append v | .extendList vs => .extendList vs | .extendPR o => .extendPR (f o)
   | .iadd o => .iadd (f o) | .clear => .clear | .contains n => .contains n | .len => .len
   | .bool => .bool | .iter => .iter | .reversed => .reversed | .keys => .keys | .values => .values
@@ -121,6 +123,11 @@ def specStep (a : Abs α) : Op α (Abs α) → Abs α × Out α
     else match d with
       | some v => (a, .val v)
       | none => (a, .err .key)
+  | .popBadKw => (a, .err .type)
+  | .setSliceScalar sl =>
+    match sl.indices a.toks.length with
+    | none => (a, .err .value)
+    | some _ => (a, .err .type)
   | .insert i v => ({ a with toks := insertAt a.toks i v }, .none)
   | .append v => ({ a with toks := a.toks ++ [v] }, .none)
   | .extendList vs => ({ a with toks := a.toks ++ vs }, .none)
